@@ -149,7 +149,8 @@ def gen_plan(rng, tier, index, config=None):
     nin = r.weighted([(1, 5), (2, 4), (3, 2), (4, 1)])
     inputs = []
     for _ in range(nin):
-        kinds = KINDS if sigkind in ("btc", "grs") and net not in ("DOGE", "DASH") else KINDS[:4]
+        # (Bitcoin Gold kept segwit and signs witness programs with its fork-id digest too; Bitcoin Cash has no segwit)
+        kinds = KINDS if sigkind in ("btc", "grs", "btg") and net not in ("DOGE", "DASH") else KINDS[:4]
         kind = r.pick(kinds)
         m, n = _mn(r, kind)
         while len(keys) < n:
@@ -310,7 +311,7 @@ def gen_plan(rng, tier, index, config=None):
     elif scen == "short_sig" and hd is None:
         # one key at a time over a signature of unusual length: the planner grinds an output amount until the model's
         # (deterministic, low-S) signature by the first cosigner has a 31-byte r or s, i.e. DER + hash type <= 70 bytes
-        witness_ok = sigkind in ("btc", "grs") and net not in ("DOGE", "DASH")
+        witness_ok = sigkind in ("btc", "grs", "btg") and net not in ("DOGE", "DASH")
         kind = r.pick(["p2wsh-multisig", "p2sh-p2wsh-multisig", "p2wsh-multisig", "multisig", "p2sh-multisig"] if witness_ok
                       else ["multisig", "p2sh-multisig"])
         ks = r.sample(range(len(keys)), 3)
@@ -980,12 +981,18 @@ def _sign_digests(W, cp, j, ht):
     spk, red, ws = _puzzle(W, spec)
     if u["script"] != spk:
         return None
+    k = spec["kind"]
     if W.forkid:
-        sc = red if red is not None else spk
+        # one digest algorithm for every kind; the script code is the one the kind dictates
+        if k in ("p2wpkh", "p2sh-p2wpkh"):
+            sc = sv.p2pkh(sv.hash160(_sec(W, spec["keys"][0])))
+        elif k in ("p2wsh-multisig", "p2sh-p2wsh-multisig"):
+            sc = ws
+        else:
+            sc = red if red is not None else spk
         if ht & sh.FORKID:
             out.add(sh.bip143(cp.m, j, sc, u["value"], ht, forkid=79 if W.sig == "btg" else None))
         return out
-    k = spec["kind"]
     if k in ("p2wpkh", "p2sh-p2wpkh"):
         h = sv.hash160(_sec(W, spec["keys"][0]))
         out.add(sh.bip143(cp.m, j, sv.p2pkh(h), u["value"], ht, single_sha=W.single))
@@ -1510,6 +1517,13 @@ def _op_sighash(ctx, W, st):
             except Exception as e:
                 got = ("raised", type(e).__name__)
             exp = sh.bip143(cp.m, idx, script, value, ht, forkid=79 if W.sig == "btg" else None, single_sha=W.single)
+            if W.sig == "btg" and not ht & sh.FORKID:
+                # Bitcoin Gold overrides this entry too (it is what the VM calls for witness programs, and it folds the fork
+                # id in): it is a fork-id variant, and those refuse hash types without the fork-id bit
+                if not isinstance(got, tuple):
+                    ctx.violate("C04", "forkid-hash-type-not-refused", {"hash_type": ht, "entry": "witness", "got": "%064x" % got})
+                    break
+                continue
             if got != exp:
                 ctx.violate("C04", "signature-hash-bip143-entry", {"hash_type": ht, "input": idx,
                                                                    "got": got if isinstance(got, tuple) else "%064x" % got, "expected": "%064x" % exp})
